@@ -20,7 +20,7 @@ TraceInit == RInit /\ l = 1 /\ tot = 0 /\ TLCSet(1, 0)
 
 TraceReset ==
     /\ l <= Len(TraceLog) /\ Ev.ev = "Reset" /\ l' = l + 1
-    /\ rs' = <<>> /\ cov' = {} /\ tot' = 0 /\ last' = [act |-> "Init"]
+    /\ rs' = <<>> /\ cov' = {} /\ tot' = 0 /\ last' = [act |-> "Init", before |-> 0, after |-> 0]
 TraceAdd ==
     /\ l <= Len(TraceLog) /\ Ev.ev = "Add" /\ l' = l + 1
     /\ RAdd(Reg(Ev.b, Ev.e))
@@ -40,7 +40,7 @@ MonInit == RInit /\ l = 1 /\ tot = 0
 MonNext ==
     /\ l <= Len(TraceLog) /\ l' = l + 1
     /\ IF Ev.ev = "Reset"
-       THEN rs' = <<>> /\ cov' = {} /\ tot' = 0 /\ last' = [act |-> "Init"]
+       THEN rs' = <<>> /\ cov' = {} /\ tot' = 0 /\ last' = [act |-> "Init", before |-> 0, after |-> 0]
        ELSE /\ rs' = ToRegs(Ev.rs)
             /\ cov' = cov \cup (Ev.b .. Ev.e)
             /\ tot' = Ev.total
